@@ -169,6 +169,17 @@ class Exc(object):
         out = set()
         if isinstance(e, ast.Name) and caught is not None and e.id in caught:
             return set(caught[e.id])
+        # error.__class__(...) / type(error)(...): an exception of the class that was caught
+        if isinstance(e, ast.Call) and caught is not None:
+            f = e.func
+            base = None
+            if isinstance(f, ast.Attribute) and f.attr == '__class__' and isinstance(f.value, ast.Name):
+                base = f.value.id
+            elif isinstance(f, ast.Call) and isinstance(f.func, ast.Name) and f.func.id == 'type' and len(f.args) == 1 \
+                    and isinstance(f.args[0], ast.Name):
+                base = f.args[0].id
+            if base is not None and base in caught:
+                return set(caught[base])
         for t in self.types.expr(e, ctx):
             if not isinstance(t, str):
                 continue
